@@ -19,6 +19,7 @@ emulator much easier to work with.
 
 from collections.abc import Iterator
 from copy import copy
+from numbers import Integral
 from typing import Any, Union, overload
 
 from ..utils.exceptions import StateError
@@ -129,6 +130,6 @@ class State:
     def __getitem__(self, indices: slice | int) -> Union[int, "State"]:
         if isinstance(indices, slice):
             return State(self.__s[indices])
-        if isinstance(indices, int):
+        if isinstance(indices, Integral):
             return self.__s[indices]
         raise TypeError("Subscript should either be int or slice.")
